@@ -4,6 +4,7 @@ import Falcon.Lemmas.SignAlg
 import Falcon.Lemmas.KeyCodecStrict
 import Falcon.Model.SignSkel
 import Falcon.Lemmas.PublicKey
+import Falcon.Props.C04
 import Mathlib.Tactic.Ring
 import Mathlib.Tactic.LinearCombination
 
@@ -289,6 +290,33 @@ theorem signed_bytes_verify_for_every_valid_key (chk chk' : Bool) (N d : Nat) (h
   obtain ⟨body, hp, hv⟩ := signed_bytes_verify chk N d hN f g cF cG z0 z1 h msg salt sig lf lg lF lG l0 l1
     (by rw [lh, hNd]) (by rw [hNd]; exact hk1) (by rw [hNd]; exact hk2) hsalt hhash hs
   exact ⟨finv, h, body, hb, hh, hp, hv⟩
+
+/-- **key generation, then signing, then verification — for every seed**: for both variants, every seed for which
+    the modelled key generation (`Model/Keygen.ntruGen`, byte-identical with the real `keygen` on every compared seed)
+    returns a key, the public key the code derives from it, every message, salt and EVERY outcome z of the sampler: if the
+    model of `sign` returns signature bytes instead of retrying, `Signature::from_bytes` parses them and `verify`
+    returns `true`, in both build modes.  Hypotheses beyond the two runs: the exactness window of the 32-bit top level
+    for this key (`Keygen.entryWindow`, evaluated by the driver on every generated key: `window=ok`), a 40-byte salt,
+    and n hashed coefficients (SHAKE).  This is C01's statement on the models, with the floating-point sampler
+    universally quantified. -/
+theorem keygen_then_sign_then_verify (chk chk' : Bool) (N d j : Nat)
+    (hN : (N = 512 ∧ d = 9 ∧ j = 8) ∨ (N = 1024 ∧ d = 10 ∧ j = 9))
+    (seed : List Nat) (f g cF cG : List Int) (k : Nat) (z0 z1 : List Int) (msg salt sig : List Nat)
+    (hkey : Keygen.ntruGen chk' N seed = .ok (.key f g cF cG k)) (hw : Keygen.entryWindow f g = true)
+    (l0 : z0.length = N) (l1 : z1.length = N) (hsalt : salt.length = 40)
+    (hhash : (Hash.hashToPoint (salt ++ msg) N).length = N)
+    (hs : SignSkel.signWith chk N f g cF cG msg salt z0 z1 = .ok (.ok sig)) :
+    ∃ finv h body, Zq.batchInv chk' (Ntt.ntt d (Ntt.toZq f)) = .ok finv ∧
+      Ntt.intt d (Ntt.hadamard (Ntt.ntt d (Ntt.toZq g)) finv) = .ok h ∧
+      KeyCodec.sigFromBytes N sig = .ok (.ok (salt, body)) ∧
+      Verify.verify chk N msg salt body h = .ok true := by
+  have hN4 : (N = 512 ∧ j = 8) ∨ (N = 1024 ∧ j = 9) := by rcases hN with ⟨a, _, c⟩ | ⟨a, _, c⟩ <;> simp [a, c]
+  have hN1 : (N = 512 ∧ d = 9) ∨ (N = 1024 ∧ d = 10) := by rcases hN with ⟨a, b, _⟩ | ⟨a, b, _⟩ <;> simp [a, b]
+  have hdj : d = j + 1 := by rcases hN with ⟨_, b, c⟩ | ⟨_, b, c⟩ <;> omega
+  obtain ⟨lf, lg, lF, lG, hntru, hinv, _⟩ :=
+    C04.model_generated_keys_are_ntru_trapdoors chk' N j hN4 seed f g cF cG k hkey hw
+  exact signed_bytes_verify_for_every_valid_key chk chk' N d hN1 f g cF cG z0 z1 msg salt sig lf lg lF lG l0 l1
+    hntru (by rw [hdj]; exact hinv) hsalt hhash hs
 
 /-- non-vacuity of `honest_signature_verifies`: a degree-2 key with h·f = g, h·F = G meets every hypothesis -/
 example : Verify.verifyCore true ⟨2, 1, 100⟩ (2 ^ 1) [5, 7] [1, 128, 64] [3, 0] = .ok true :=
